@@ -82,6 +82,7 @@ func (m *Machine) everr(format string, a ...interface{}) {
 
 var ghostSorts = map[string]Sort{
 	"@in": SBytes, "@pos": SBV64, "@out": SStrm, "@W": SBool, "@E": SBool, "@buf": SStrm, "@rd": SStrm,
+	"@nwrites": SBV64, "@dyncalls": SBV64, "@rset": SBV64,
 	"@refs": SBV64, "@defs": SBV64, "@depth": SBV64, "@alloc": SBV64, "@nread": SBV64,
 }
 
@@ -710,6 +711,102 @@ func (m *Machine) evCall(env *Env, x *Expr) CV {
 		a := m.ev(env, args[0]).V.(Term)
 		b := m.ev(env, args[1]).V.(Term)
 		return CV{V: Eq(a, b)}
+	}
+	switch name {
+	case "payload":
+		need(1)
+		a := m.ev(env, args[0])
+		if t, ok := a.V.(Term); ok {
+			if pv, ok := m.ifacePayload[t.S]; ok {
+				return CV{V: pv}
+			}
+		}
+		m.everr("payload: not an interface value with a known payload")
+	case "fresh":
+		// the value was allocated during this call
+		need(1)
+		a := m.ev(env, args[0])
+		switch v := a.V.(type) {
+		case *PtrV:
+			return CV{V: mkBool(v.Obj != nil && !v.Obj.Sym && v.Obj.ID > m.cur.entryObjN)}
+		case *SliceV:
+			return CV{V: mkBool(!v.Obj.Sym && v.Obj.ID > m.cur.entryObjN)}
+		case Term:
+			return CV{V: mkBool(m.cur.freshTerms[v.S])}
+		}
+		return CV{V: TFalse}
+	case "isnilptr":
+		need(1)
+		a := m.ev(env, args[0])
+		if p, ok := a.V.(*PtrV); ok {
+			return CV{V: mkBool(p.Obj == nil)}
+		}
+		m.everr("isnilptr of non-pointer")
+	case "chcap", "chlen", "recvs", "sends", "lastrecv", "lastsent":
+		need(1)
+		a := m.ev(env, args[0])
+		ch, ok := a.V.(Term)
+		if !ok {
+			m.everr("%s of non-channel", name)
+		}
+		cs := m.chanState(env.cur, ch)
+		switch name {
+		case "chcap":
+			return CV{V: cs.cap, Signed: true}
+		case "chlen":
+			return CV{V: cs.len, Signed: true}
+		case "recvs":
+			return CV{V: cs.recvs, Signed: true}
+		case "sends":
+			return CV{V: cs.sends, Signed: true}
+		case "lastrecv":
+			if cs.lastRecv == nil {
+				return CV{V: Sym("iface.nil", SIface)}
+			}
+			return CV{V: cs.lastRecv}
+		default:
+			if cs.lastSent == nil {
+				return CV{V: Sym("iface.nil", SIface)}
+			}
+			return CV{V: cs.lastSent}
+		}
+	case "bufof":
+		need(1)
+		a := m.ev(env, args[0])
+		_, t := bufContent(m, env.cur, a.V)
+		return CV{V: t}
+	case "runes":
+		need(1)
+		a := m.ev(env, args[0])
+		return CV{V: app(SRunes, "s.runes", a.V.(Term))}
+	case "dyncalls":
+		need(0)
+		return CV{V: m.ghostOr(env.cur, "@dyncalls", BVLitI(0, 64)), Signed: true}
+	case "lastdyn":
+		need(0)
+		if v, ok := env.cur.ghost["@lastdyn"]; ok {
+			return CV{V: v}
+		}
+		return CV{V: Sym("iface.nil", SIface)}
+	case "mapsize":
+		need(1)
+		a := m.ev(env, args[0])
+		ref, ok := a.V.(Term)
+		if !ok || ref.Sort != "MapRef" {
+			m.everr("mapsize of non-map")
+		}
+		if v, ok := env.cur.ghost["@map:"+ref.S]; ok {
+			return CV{V: v.(*mapContent).size, Signed: true}
+		}
+		return CV{V: app(SBV64, "map.size0", ref), Signed: true}
+	case "sameptr":
+		need(2)
+		a, okA := m.ev(env, args[0]).V.(*PtrV)
+		b, okB := m.ev(env, args[1]).V.(*PtrV)
+		if okA && okB {
+			return CV{V: mkBool(a.Obj == b.Obj && pathKey(a.Path) == pathKey(b.Path))}
+		}
+		m.everr("sameptr of non-pointers")
 	}
 	// spec functions from the prelude
 	if fn, ok := m.prelude.Funcs[name]; ok {
